@@ -11,7 +11,7 @@ META = {
             'called after a random number of earlier calls (default generator state) or with an explicit generator; result compared '
             'with the Lean model (exact) and checked directly: valid NFA, new state not an operand state, language = union / '
             'concatenation / star on all words <=4 (union: exact product BFS), operands untouched; non-trivial = both operands accept '
-            'some non-empty word; distinct by content',
+            'some non-empty word; distinct by content; also operands with different epsilon symbols (second operand\'s epsilon an ordinary symbol of the first; first operand\'s epsilon an input symbol of the second must be rejected)',
     'assumptions': ['operand state sets disjoint; NFA.valid operands; delta is a dict (unique keys)'],
     'trusted_base': ['Spec: Gamba/Spec/Automata.lean'],
 }
